@@ -810,6 +810,7 @@ func c02Standalone(c *Ctx) {
 }
 
 var c02Canaries = []Canary{
+	{Name: "r5-hard-link-in-adapter", ExpectKey: "C02.R7", Edits: []Edit{{File: "tq/basic_download.go", Find: "\ttools.RobustRename(a.downloadFilename(t), f.Name())", Repl: "\tif err := os.Link(a.downloadFilename(t), f.Name()); err != nil {\n\t\ttools.RobustRename(a.downloadFilename(t), f.Name())\n\t}"}}},
 	{Name: "basic-drop-hash-test", ExpectKey: "C02.R1#publish:(*tq.basicDownloadAdapter).download", Edits: []Edit{{File: "tq/basic_download.go", Find: "	if actual := hasher.Hash(); actual != t.Oid {\n		return errors.New(", Repl: "	if actual := hasher.Hash(); actual != t.Oid && written < 0 {\n		return errors.New("}}},
 	{Name: "ssh-compare-name", ExpectKey: "C02.R1", Edits: []Edit{{File: "tq/ssh.go", Find: "	if actual := hasher.Hash(); actual != t.Oid {\n		return errors.New(tr.Tr.Get(\"expected OID %s, got %s after %d bytes written\", t.Oid, actual, written))\n	}\n\n	if err := f.Close(); err != nil {", Repl: "	if actual := hasher.Hash(); actual != t.Name {\n		return errors.New(tr.Tr.Get(\"expected OID %s, got %s after %d bytes written\", t.Oid, actual, written))\n	}\n\n	if err := f.Close(); err != nil {"}}},
 	{Name: "custom-verify-after-move", ExpectKey: "C02.R1", Edits: []Edit{{File: "tq/custom.go", Find: "				if err = tools.VerifyFileHash(t.Oid, resp.Path); err != nil {\n					return errors.New(tr.Tr.Get(\"downloaded file failed checks: %v\", err))\n				}\n				// Move file to final location\n				if err = tools.RenameFileCopyPermissions(resp.Path, t.Path); err != nil {\n					return errors.New(tr.Tr.Get(\"failed to copy downloaded file: %v\", err))\n				}", Repl: "				// Move file to final location\n				if err = tools.RenameFileCopyPermissions(resp.Path, t.Path); err != nil {\n					return errors.New(tr.Tr.Get(\"failed to copy downloaded file: %v\", err))\n				}\n				if err = tools.VerifyFileHash(t.Oid, t.Path); err != nil {\n					return errors.New(tr.Tr.Get(\"downloaded file failed checks: %v\", err))\n				}"}}},
